@@ -18,7 +18,9 @@ func init() {
 }
 
 var (
-	c03Bytes   = []string{" ", "\t", "[", "]", "(", ")", "|", ".", "-", "=", "<", ">", "a", "z", "X", "Q", "1", "_", "$", "\xc3"}
+	// class representatives; the last two are multi-byte characters whose low code-point byte is an ASCII
+	// letter (U+016F -> 'o', U+0141 -> 'A'): they belong to no name
+	c03Bytes   = []string{" ", "\t", "[", "]", "(", ")", "|", ".", "-", "=", "<", ">", "a", "z", "X", "Q", "1", "_", "$", "\xc3", "\u016f", "\u0141"}
 	c03BytesSm = []string{" ", "[", "]", "(", ")", "|", ".", "-", "=", "<", ">", "a", "X"}
 	c03Lexemes = []string{"[", "]", "(", ")", "|", "...", "-a", "-z", "--aa", "-ab", "OPTIONS", "X", "Q", "--", "=<v>"}
 	c03Argvs   = [][]string{{}, {"x"}, {"-a"}, {"--"}, {"x", "x"}, {"-ab", "x"}, {""}, {"-o", ""}, {"--out", "", "x"}}
